@@ -3,6 +3,8 @@ C14 — descriptors decode/encode per spec; declared lengths always match emitte
 -/
 import Astits.Model.Desc
 import Astits.Proofs.DescLengths
+import Astits.Proofs.DescRT
+import Astits.Proofs.DescRT.Norm
 namespace Astits.C14
 
 /-- a descriptor's body as the writers emit it has the computed length (the condition is decidable and is checked
@@ -673,5 +675,342 @@ example : calcDescriptorLength { tag := 0x40, networkName := some { name := List
   decide +kernel
 
 end Typed
+
+
+/-! ## Round trip of the typed descriptor kinds: `parseDescriptor (writeDescriptor d ++ r) = d`
+
+Helper lemmas: `Astits/Proofs/DescRT/*.lean` (namespace `Astits.DescRT`).  `PSIRT.DescRT d` says: wherever the bytes
+`writeDescriptor d` stand in a slice (any bytes before, any bytes `r` after), `parseDescriptor` started in front of them
+returns exactly `d` and leaves the iterator right after them.
+
+For each kind `Xxx`, `DescRT.ofXxx x` is the descriptor as the PARSER builds it: the kind's tag, `Length` = the value
+of the length calculator, the one sub-struct pointer set to `x`, every other pointer nil, `UserDefined` empty; and
+`DescRT.XxxWF x` is the well-formedness predicate:
+* every field fits the bit width the writer gives it (`wU8` / `wU16` / `wU32` / `WriteN(v, n)` truncate);
+* language and country codes have exactly 3 bytes (`WriteBytesN(bs, 3, 0)` pads / cuts, the parser returns 3 bytes);
+* an optional field whose flag is clear holds Go's zero value (it is neither written nor read);
+* the body is at least 1 and at most 255 bytes (`fits`, and `nonempty` for the kinds whose body can be empty);
+* kind-specific: the maximum bitrate is a multiple of 50 below 50·2²²; a teletext page is below 160; a VBI data service
+  with an unknown id has no line descriptor; local-time-offset durations are whole minutes in [0, 160 h), the time
+  of change lies in MJD 15079..65535 (1900-03-01 .. 2038-04-22, the range of C15).
+The places where the pair is NOT inverse on in-range values are listed with their normal forms in the next section. -/
+
+section TypedRT
+open Astits.DescRT Astits.PSIRT
+theorem desc_rt_ac3 (x : DescriptorAC3) (wf : AC3WF x) : DescRT (ofAC3 x) := (ac3_ok x wf).rt
+theorem desc_rt_avc_video (x : DescriptorAVCVideo) (wf : AVCVideoWF x) : DescRT (ofAVCVideo x) := (avcVideo_ok x wf).rt
+theorem desc_rt_component (x : DescriptorComponent) (wf : ComponentWF x) : DescRT (ofComponent x) := (component_ok x wf).rt
+theorem desc_rt_content (x : DescriptorContent) (wf : ContentWF x) : DescRT (ofContent x) := (content_ok x wf).rt
+theorem desc_rt_data_stream_alignment (x : DescriptorDataStreamAlignment) (wf : DataStreamAlignmentWF x) : DescRT (ofDataStreamAlignment x) := (dataStreamAlignment_ok x wf).rt
+theorem desc_rt_enhanced_ac3 (x : DescriptorEnhancedAC3) (wf : EnhancedAC3WF x) : DescRT (ofEnhancedAC3 x) := (enhancedAC3_ok x wf).rt
+theorem desc_rt_extended_event (x : DescriptorExtendedEvent) (wf : ExtendedEventWF x) : DescRT (ofExtendedEvent x) := (extendedEvent_ok x wf).rt
+theorem desc_rt_extension (x : DescriptorExtension) (wf : ExtensionWF x) : DescRT (ofExtension x) := (extension_ok x wf).rt
+theorem desc_rt_iso639_language_and_audio_type (x : DescriptorISO639LanguageAndAudioType) (wf : ISO639WF x) : DescRT (ofISO639 x) := (iso639_ok x wf).rt
+theorem desc_rt_local_time_offset (x : DescriptorLocalTimeOffset) (wf : LocalTimeOffsetWF x) : DescRT (ofLocalTimeOffset x) := (localTimeOffset_ok x wf).rt
+theorem desc_rt_maximum_bitrate (x : DescriptorMaximumBitrate) (wf : MaximumBitrateWF x) : DescRT (ofMaximumBitrate x) := (maximumBitrate_ok x wf).rt
+theorem desc_rt_network_name (x : DescriptorNetworkName) (wf : NetworkNameWF x) : DescRT (ofNetworkName x) := (networkName_ok x wf).rt
+theorem desc_rt_parental_rating (x : DescriptorParentalRating) (wf : ParentalRatingWF x) : DescRT (ofParentalRating x) := (parentalRating_ok x wf).rt
+theorem desc_rt_private_data_indicator (x : DescriptorPrivateDataIndicator) (wf : PrivateDataIndicatorWF x) : DescRT (ofPrivateDataIndicator x) := (privateDataIndicator_ok x wf).rt
+theorem desc_rt_private_data_specifier (x : DescriptorPrivateDataSpecifier) (wf : PrivateDataSpecifierWF x) : DescRT (ofPrivateDataSpecifier x) := (privateDataSpecifier_ok x wf).rt
+theorem desc_rt_registration (x : DescriptorRegistration) (wf : RegistrationWF x) : DescRT (ofRegistration x) := (registration_ok x wf).rt
+theorem desc_rt_service (x : DescriptorService) (wf : ServiceWF x) : DescRT (ofService x) := (service_ok x wf).rt
+theorem desc_rt_short_event (x : DescriptorShortEvent) (wf : ShortEventWF x) : DescRT (ofShortEvent x) := (shortEvent_ok x wf).rt
+theorem desc_rt_stream_identifier (x : DescriptorStreamIdentifier) (wf : StreamIdentifierWF x) : DescRT (ofStreamIdentifier x) := (streamIdentifier_ok x wf).rt
+theorem desc_rt_subtitling (x : DescriptorSubtitling) (wf : SubtitlingWF x) : DescRT (ofSubtitling x) := (subtitling_ok x wf).rt
+theorem desc_rt_teletext (x : DescriptorTeletext) (wf : TeletextWF x) : DescRT (ofTeletext x) := (teletext_ok x wf).rt
+theorem desc_rt_vbi_data (x : DescriptorVBIData) (wf : VBIDataWF x) : DescRT (ofVBIData x) := (vbiData_ok x wf).rt
+theorem desc_rt_vbi_teletext (x : DescriptorTeletext) (wf : TeletextWF x) : DescRT (ofVBITeletext x) := (vbiTeletext_ok x wf).rt
+theorem desc_rt_unknown (x : DescriptorUnknown) (wf : UnknownWF x) : DescRT (ofUnknown x) := (unknown_ok x wf).rt
+
+/-- the typed kinds with their well-formedness predicates: one constructor per kind -/
+inductive TypedWF : Descriptor → Prop
+  | ac3 (x : DescriptorAC3) (wf : AC3WF x) : TypedWF (ofAC3 x)
+  | avc_video (x : DescriptorAVCVideo) (wf : AVCVideoWF x) : TypedWF (ofAVCVideo x)
+  | component (x : DescriptorComponent) (wf : ComponentWF x) : TypedWF (ofComponent x)
+  | content (x : DescriptorContent) (wf : ContentWF x) : TypedWF (ofContent x)
+  | data_stream_alignment (x : DescriptorDataStreamAlignment) (wf : DataStreamAlignmentWF x) : TypedWF (ofDataStreamAlignment x)
+  | enhanced_ac3 (x : DescriptorEnhancedAC3) (wf : EnhancedAC3WF x) : TypedWF (ofEnhancedAC3 x)
+  | extended_event (x : DescriptorExtendedEvent) (wf : ExtendedEventWF x) : TypedWF (ofExtendedEvent x)
+  | extension (x : DescriptorExtension) (wf : ExtensionWF x) : TypedWF (ofExtension x)
+  | iso639_language_and_audio_type (x : DescriptorISO639LanguageAndAudioType) (wf : ISO639WF x) : TypedWF (ofISO639 x)
+  | local_time_offset (x : DescriptorLocalTimeOffset) (wf : LocalTimeOffsetWF x) : TypedWF (ofLocalTimeOffset x)
+  | maximum_bitrate (x : DescriptorMaximumBitrate) (wf : MaximumBitrateWF x) : TypedWF (ofMaximumBitrate x)
+  | network_name (x : DescriptorNetworkName) (wf : NetworkNameWF x) : TypedWF (ofNetworkName x)
+  | parental_rating (x : DescriptorParentalRating) (wf : ParentalRatingWF x) : TypedWF (ofParentalRating x)
+  | private_data_indicator (x : DescriptorPrivateDataIndicator) (wf : PrivateDataIndicatorWF x) : TypedWF (ofPrivateDataIndicator x)
+  | private_data_specifier (x : DescriptorPrivateDataSpecifier) (wf : PrivateDataSpecifierWF x) : TypedWF (ofPrivateDataSpecifier x)
+  | registration (x : DescriptorRegistration) (wf : RegistrationWF x) : TypedWF (ofRegistration x)
+  | service (x : DescriptorService) (wf : ServiceWF x) : TypedWF (ofService x)
+  | short_event (x : DescriptorShortEvent) (wf : ShortEventWF x) : TypedWF (ofShortEvent x)
+  | stream_identifier (x : DescriptorStreamIdentifier) (wf : StreamIdentifierWF x) : TypedWF (ofStreamIdentifier x)
+  | subtitling (x : DescriptorSubtitling) (wf : SubtitlingWF x) : TypedWF (ofSubtitling x)
+  | teletext (x : DescriptorTeletext) (wf : TeletextWF x) : TypedWF (ofTeletext x)
+  | vbi_data (x : DescriptorVBIData) (wf : VBIDataWF x) : TypedWF (ofVBIData x)
+  | vbi_teletext (x : DescriptorTeletext) (wf : TeletextWF x) : TypedWF (ofVBITeletext x)
+  | unknown (x : DescriptorUnknown) (wf : UnknownWF x) : TypedWF (ofUnknown x)
+
+/-- round trip AND the length equation (`PSIRT.DescOk`, the per-descriptor hypothesis of `C13.pmt_roundtrip`) -/
+theorem desc_ok_typed (d : Descriptor) (h : TypedWF d) : DescOk d := by
+  cases h with
+  | ac3 x wf => exact ac3_ok x wf
+  | avc_video x wf => exact avcVideo_ok x wf
+  | component x wf => exact component_ok x wf
+  | content x wf => exact content_ok x wf
+  | data_stream_alignment x wf => exact dataStreamAlignment_ok x wf
+  | enhanced_ac3 x wf => exact enhancedAC3_ok x wf
+  | extended_event x wf => exact extendedEvent_ok x wf
+  | extension x wf => exact extension_ok x wf
+  | iso639_language_and_audio_type x wf => exact iso639_ok x wf
+  | local_time_offset x wf => exact localTimeOffset_ok x wf
+  | maximum_bitrate x wf => exact maximumBitrate_ok x wf
+  | network_name x wf => exact networkName_ok x wf
+  | parental_rating x wf => exact parentalRating_ok x wf
+  | private_data_indicator x wf => exact privateDataIndicator_ok x wf
+  | private_data_specifier x wf => exact privateDataSpecifier_ok x wf
+  | registration x wf => exact registration_ok x wf
+  | service x wf => exact service_ok x wf
+  | short_event x wf => exact shortEvent_ok x wf
+  | stream_identifier x wf => exact streamIdentifier_ok x wf
+  | subtitling x wf => exact subtitling_ok x wf
+  | teletext x wf => exact teletext_ok x wf
+  | vbi_data x wf => exact vbiData_ok x wf
+  | vbi_teletext x wf => exact vbiTeletext_ok x wf
+  | unknown x wf => exact unknown_ok x wf
+
+/-- **C14 round trip for the typed kinds**: every well-formed typed descriptor, written by `writeDescriptor` anywhere in
+a slice, is parsed back by `parseDescriptor` to the same value, and the parser stops right after it -/
+theorem desc_rt_typed (d : Descriptor) (h : TypedWF d) : DescRT d := (desc_ok_typed d h).rt
+
+/-- the plain reading: parsing the written bytes gives the descriptor back -/
+theorem desc_rt_typed_val (d : Descriptor) (h : TypedWF d) : parseDescriptor.val (writeDescriptor d) = .ok d := by
+  have := desc_rt_typed d h (writeDescriptor d) 0 [] ⟨[], by simp, rfl⟩
+  unfold P.val
+  rw [this]
+
+/-- a well-formed typed descriptor is written as tag, length, and exactly `calcDescriptorLength d` more bytes (the first
+conjunct of `length_matches`, here without the `BodyFits` hypothesis) -/
+theorem typedWF_length (d : Descriptor) (h : TypedWF d) : (writeDescriptor d).length = 2 + calcDescriptorLength d :=
+  (desc_ok_typed d h).len
+
+/-- typed or user-defined: everything `parseDescriptor` can be asked to give back -/
+inductive DescWF : Descriptor → Prop
+  | typed (d : Descriptor) (h : TypedWF d) : DescWF d
+  | user (tag : Nat) (u : Bytes) (ht : isUserDefinedTag tag = true) (hu : u.length < 256) : DescWF (userDescriptor tag u)
+
+theorem desc_ok_wf (d : Descriptor) (h : DescWF d) : DescOk d := by
+  cases h with
+  | typed _ h => exact desc_ok_typed d h
+  | user tag u ht hu => exact userDescriptor_ok tag u ht hu
+
+end TypedRT
+
+/-! ### non-vacuity: a concrete, non-trivial well-formed value for every kind -/
+
+section TypedRTExamples
+open Astits.DescRT Astits.PSIRT
+
+example : TypedWF (ofAC3 { hasBSID := true, bsid := 8, hasASVC := true, asvc := 1, additionalInfo := [1, 2] }) :=
+  .ac3 _ ⟨by decide, by decide, by decide, by decide, by decide⟩
+example : TypedWF (ofAVCVideo { profileIDC := 100, levelIDC := 40, constraintSet1Flag := true, compatibleFlags := 3, avcStillPresent := true }) :=
+  .avc_video _ ⟨by decide, by decide, by decide⟩
+example : TypedWF (ofComponent { streamContent := 1, streamContentExt := 15, componentType := 3, componentTag := 7, iso639LanguageCode := [0x65, 0x6e, 0x67], text := [0x41, 0x42] }) :=
+  .component _ ⟨by decide, by decide, by decide, by decide, by decide, by decide⟩
+example : TypedWF (ofContent { items := [{ contentNibbleLevel1 := 1, contentNibbleLevel2 := 2, userByte := 3 }, { contentNibbleLevel1 := 4 }] }) :=
+  .content _ ⟨by intro a ha; simp at ha; rcases ha with rfl | rfl <;> exact ⟨by decide, by decide, by decide⟩, by decide, by decide⟩
+example : TypedWF (ofDataStreamAlignment { type := 2 }) := .data_stream_alignment _ ⟨by decide⟩
+example : TypedWF (ofEnhancedAC3 { hasComponentType := true, componentType := 9, hasSubStream2 := true, subStream2 := 5, mixInfoExists := true, additionalInfo := [0xaa] }) :=
+  .enhanced_ac3 _ ⟨by decide, by decide, by decide, by decide, by decide, by decide, by decide, by decide⟩
+example : TypedWF (ofExtendedEvent { number := 1, lastDescriptorNumber := 2, iso639LanguageCode := [0x65, 0x6e, 0x67], items := [{ description := [1, 2], content := [3] }, { description := [], content := [4, 5] }], text := [6, 7, 8] }) :=
+  .extended_event _ ⟨by decide, by decide, by decide,
+    by intro a ha; simp at ha; rcases ha with rfl | rfl <;> exact ⟨by decide, by decide⟩, by decide⟩
+example : TypedWF (ofExtension { tag := 6, supplementaryAudio := some { mixType := true, editorialClassification := 2, hasLanguageCode := true, languageCode := [0x65, 0x6e, 0x67], privateData := [9] } }) :=
+  .extension _ (.supplementaryAudio _ ⟨by decide, by decide, by decide⟩ (by decide))
+example : TypedWF (ofExtension { tag := 0x20, unknown := some [1, 2, 3] }) :=
+  .extension _ (.unknown 0x20 [1, 2, 3] (by decide) (by decide) (by decide))
+example : TypedWF (ofISO639 { language := [0x66, 0x72, 0x61], type := 1 }) :=
+  .iso639_language_and_audio_type _ ⟨by decide, by decide⟩
+/-- +01:00 now, +02:00 from 2001-09-09 01:46:40 UTC, France, region 1, polarity set -/
+example : TypedWF (ofLocalTimeOffset { items := [{ countryCode := [0x46, 0x52, 0x41], countryRegionID := 1, localTimeOffsetPolarity := true, localTimeOffset := 3600000000000, timeOfChange := 1000000000, nextTimeOffset := 7200000000000 }] }) :=
+  .local_time_offset _ ⟨by intro a ha; simp at ha; subst ha; exact ⟨by decide, by decide, by decide, by decide, by decide⟩,
+    by decide, by decide⟩
+example : TypedWF (ofMaximumBitrate { bitrate := 5000000 }) := .maximum_bitrate _ ⟨by decide, by decide⟩
+example : TypedWF (ofNetworkName { name := [0x6e, 0x65, 0x74] }) := .network_name _ ⟨by decide, by decide⟩
+example : TypedWF (ofParentalRating { items := [{ countryCode := [0x46, 0x52, 0x41], rating := 4 }, { countryCode := [0x47, 0x42, 0x52], rating := 9 }] }) :=
+  .parental_rating _ ⟨by intro a ha; simp at ha; rcases ha with rfl | rfl <;> exact ⟨by decide, by decide⟩, by decide, by decide⟩
+example : TypedWF (ofPrivateDataIndicator { indicator := 0x01020304 }) := .private_data_indicator _ ⟨by decide⟩
+example : TypedWF (ofPrivateDataSpecifier { specifier := 0x28 }) := .private_data_specifier _ ⟨by decide⟩
+example : TypedWF (ofRegistration { formatIdentifier := 0x48444d56, additionalIdentificationInfo := [1, 2] }) :=
+  .registration _ ⟨by decide, by decide⟩
+example : TypedWF (ofService { type := 1, provider := [0x70, 0x72], name := [0x6e, 0x61, 0x6d] }) := .service _ ⟨by decide, by decide⟩
+example : TypedWF (ofShortEvent { language := [0x65, 0x6e, 0x67], eventName := [1, 2], text := [3] }) :=
+  .short_event _ ⟨by decide, by decide⟩
+example : TypedWF (ofStreamIdentifier { componentTag := 7 }) := .stream_identifier _ ⟨by decide⟩
+example : TypedWF (ofSubtitling { items := [{ language := [0x65, 0x6e, 0x67], type := 0x10, compositionPageID := 1, ancillaryPageID := 0x1234 }] }) :=
+  .subtitling _ ⟨by intro a ha; simp at ha; subst ha; exact ⟨by decide, by decide, by decide, by decide⟩, by decide, by decide⟩
+example : TypedWF (ofTeletext { items := [{ language := [0x65, 0x6e, 0x67], type := 2, magazine := 1, page := 88 }] }) :=
+  .teletext _ ⟨by intro a ha; simp at ha; subst ha; exact ⟨by decide, by decide, by decide, by decide⟩, by decide, by decide⟩
+example : TypedWF (ofVBIData { services := [{ dataServiceID := 1, descriptors := [{ fieldParity := true, lineOffset := 7 }, { lineOffset := 8 }] }, { dataServiceID := 3, descriptors := [] }] }) :=
+  .vbi_data _ ⟨by
+      intro a ha; simp at ha
+      rcases ha with rfl | rfl
+      · refine ⟨by decide, fun _ => ⟨by decide, ?_⟩, fun h => by simp [isKnownVBIDataServiceID] at h⟩
+        intro d hd; simp at hd; rcases hd with rfl | rfl <;> exact ⟨by decide⟩
+      · exact ⟨by decide, fun h => by simp [isKnownVBIDataServiceID] at h, fun _ => rfl⟩,
+    by decide, by decide⟩
+example : TypedWF (ofVBITeletext { items := [{ language := [0x65, 0x6e, 0x67], type := 1, magazine := 0, page := 159 }, { language := [0x66, 0x72, 0x61] }] }) :=
+  .vbi_teletext _ ⟨by intro a ha; simp at ha; rcases ha with rfl | rfl <;> exact ⟨by decide, by decide, by decide, by decide⟩,
+    by decide, by decide⟩
+example : TypedWF (ofUnknown { tag := 0x13, content := [1, 2, 3, 4] }) := .unknown _ ⟨by decide, by decide, by decide, by decide, by decide⟩
+/-- the theorem applied: the bytes `[0x0a, 4, 0x66, 0x72, 0x61, 1]` parse back to the ISO 639 descriptor -/
+example : parseDescriptor.val [0x0a, 4, 0x66, 0x72, 0x61, 1] = .ok (ofISO639 { language := [0x66, 0x72, 0x61], type := 1 }) := by
+  have h := desc_rt_typed_val (ofISO639 { language := [0x66, 0x72, 0x61], type := 1 })
+    (.iso639_language_and_audio_type _ ⟨by decide, by decide⟩)
+  have e : writeDescriptor (ofISO639 { language := [0x66, 0x72, 0x61], type := 1 }) = [0x0a, 4, 0x66, 0x72, 0x61, 1] := by decide
+  rw [e] at h
+  exact h
+
+end TypedRTExamples
+
+/-! ## Where `parseDescriptor ∘ writeDescriptor` is NOT the identity, and the normal form it returns
+
+`DescRT.DescRTTo d d'` : the bytes of `d`, wherever they stand, parse to `d'` (and the parser stops right after them).
+Values with in-range fields that do not come back unchanged, each with its normal form:
+1. `Length` is never read by the (repaired) writer and is recomputed by the parser (`desc_rt_stale_length`).
+2. A body of 0 bytes — an empty network name, an empty item list (content, parental rating, subtitling, teletext,
+   local time offset, VBI data), an unknown-tag descriptor without content, and every nil sub-struct — is written as
+   `tag, 0`; the parser then does not enter the `switch`: the sub-struct pointer comes back nil (`desc_rt_zero_length`).
+3. Maximum bitrate: the writer stores `bitrate / 50` in 22 bits, the parser multiplies by 50: `bitrate % 50` is lost
+   (`desc_rt_maximum_bitrate_norm`, no hypothesis at all).
+4. AC-3 / enhanced AC-3: a value in a field whose `HasXxx` flag is clear is not written (`desc_rt_ac3_norm`,
+   `desc_rt_enhanced_ac3_norm`). (The 4 reserved bits of the AC-3 flags byte are written 1111 and ignored on input: no
+   effect on this direction.)
+5. Teletext / VBI teletext: `Page` travels as the two 4-bit values `Page / 10`, `Page % 10`; pages 0..159 survive, a
+   page of 160..255 comes back as `Page − 160` (`desc_rt_teletext_norm`).
+6. VBI data: for a service whose id is not one of the six known ids the writer emits one reserved byte instead of
+   the line descriptors, the parser skips it: the descriptors are dropped (`desc_rt_vbi_data_norm`).
+7. Extension: the pointer not selected by the extension tag is dropped, and a nil `Unknown` (extension tag ≠ 6) comes
+   back as a pointer to an empty slice (`desc_rt_extension_norm_*`); with extension tag 6 and a nil
+   `SupplementaryAudio` Go panics after three bytes (`writeDescriptorPanics`), and those three bytes do not parse.
+8. Codes that are not 3 bytes long come back padded with zeros / cut to 3 bytes; supplementary-audio language code
+   without its flag is dropped; values wider than their field are truncated; durations lose their seconds; a body of
+   more than 255 bytes is announced modulo 256 (C14 `not_body_fits_of_overflow`) — concrete evaluations below. -/
+
+section NormalForms
+open Astits.DescRT Astits.PSIRT
+
+theorem desc_rt_stale_length (d' : Descriptor) (n : Nat) (h : TypedWF d') : DescRTTo { d' with length := n } d' :=
+  staleLength_rt d' n (desc_rt_typed d' h)
+
+/-- ANY descriptor value with an 8-bit tag whose computed length is 0: tag and a zero length byte are written, and the
+bare header comes back -/
+theorem desc_rt_zero_length (d : Descriptor) (htag : d.tag < 256) (hcalc : calcDescriptorLength d = 0)
+    (bs : Bytes) (off : Int) (r : Bytes) (hat : It.At ⟨bs, off⟩ (writeDescriptor d ++ r)) :
+    parseDescriptor ⟨bs, off⟩ = .ok ({ tag := d.tag, length := 0 }, ⟨bs, off + 2⟩) :=
+  zero_length_rt d htag hcalc bs off r hat
+
+theorem desc_rt_maximum_bitrate_norm (x : DescriptorMaximumBitrate) :
+    DescRTTo (ofMaximumBitrate x) (ofMaximumBitrate { bitrate := x.bitrate / 50 % 4194304 * 50 }) :=
+  maximumBitrate_norm x
+
+theorem desc_rt_ac3_norm (x : DescriptorAC3) (h1 : x.hasComponentType = true → x.componentType < 256)
+    (h2 : x.hasBSID = true → x.bsid < 256) (h3 : x.hasMainID = true → x.mainID < 256)
+    (h4 : x.hasASVC = true → x.asvc < 256) (hfit : DescLen.ac3Size x < 256) :
+    DescRTTo (ofAC3 x) (ofAC3 (normAC3 x)) := ac3_norm x h1 h2 h3 h4 hfit
+
+theorem desc_rt_enhanced_ac3_norm (x : DescriptorEnhancedAC3) (h1 : x.hasComponentType = true → x.componentType < 256)
+    (h2 : x.hasBSID = true → x.bsid < 256) (h3 : x.hasMainID = true → x.mainID < 256)
+    (h4 : x.hasASVC = true → x.asvc < 256) (h5 : x.hasSubStream1 = true → x.subStream1 < 256)
+    (h6 : x.hasSubStream2 = true → x.subStream2 < 256) (h7 : x.hasSubStream3 = true → x.subStream3 < 256)
+    (hfit : DescLen.enhancedAC3Size x < 256) :
+    DescRTTo (ofEnhancedAC3 x) (ofEnhancedAC3 (normEnhancedAC3 x)) := enhancedAC3_norm x h1 h2 h3 h4 h5 h6 h7 hfit
+
+theorem desc_rt_teletext_norm (x : DescriptorTeletext)
+    (hitems : ∀ a ∈ x.items, a.language.length = 3 ∧ a.type < 32 ∧ a.magazine < 8)
+    (hne : 0 < x.items.length) (hfit : 5 * x.items.length < 256) :
+    DescRTTo (ofTeletext x) (ofTeletext (normTeletext x)) ∧ DescRTTo (ofVBITeletext x) (ofVBITeletext (normTeletext x)) :=
+  teletext_norm x hitems hne hfit
+
+theorem desc_rt_vbi_data_norm (x : DescriptorVBIData)
+    (hsrv : ∀ s ∈ x.services, s.dataServiceID < 256 ∧
+      (isKnownVBIDataServiceID s.dataServiceID = true → s.descriptors.length < 256 ∧ ∀ d ∈ s.descriptors, d.lineOffset < 32))
+    (hne : 0 < x.services.length) (hfit : vbiDataServicesSize x.services < 256) :
+    DescRTTo (ofVBIData x) (ofVBIData (normVBIData x)) := vbiData_norm x hsrv hne hfit
+
+theorem desc_rt_extension_norm_unknown (x : DescriptorExtension) (ht : x.tag ≠ descriptorTagExtensionSupplementaryAudio)
+    (h256 : x.tag < 256) (hfit : 1 + (x.unknown.getD []).length < 256) :
+    DescRTTo (ofExtension x) (ofExtension (normExtension x)) := extension_norm_unknown x ht h256 hfit
+
+theorem desc_rt_extension_norm_supplementary_audio (x : DescriptorExtension) (s : DescriptorExtensionSupplementaryAudio)
+    (ht : x.tag = descriptorTagExtensionSupplementaryAudio) (hs : x.supplementaryAudio = some s)
+    (wf : SupplementaryAudioWF s) (hfit : 1 + calcDescriptorExtensionSupplementaryAudioLength s < 256) :
+    DescRTTo (ofExtension x) (ofExtension (normExtension x)) := extension_norm_supplementaryAudio x s ht hs wf hfit
+
+/-- `parseDescriptor (writeDescriptor d)` is `ok d'` (a Bool, because `Res` has no decidable equality) -/
+def roundTripsTo (d d' : Descriptor) : Bool :=
+  match parseDescriptor.val (writeDescriptor d) with
+  | .ok r => r == d'
+  | _ => false
+
+/-! concrete evaluations of the model at values the well-formedness predicates exclude -/
+
+/-- 2: an empty network name loses its sub-struct -/
+example : roundTripsTo (ofNetworkName { name := [] }) { tag := 0x40, length := 0 } = true := by decide +kernel
+/-- 3: 1234 bytes/s come back as 1200 -/
+example : roundTripsTo (ofMaximumBitrate { bitrate := 1234 }) (ofMaximumBitrate { bitrate := 1200 }) = true := by decide +kernel
+/-- 4: a BSID without `HasBSID` is not written -/
+example : roundTripsTo (ofAC3 { bsid := 7, hasBSID := false }) (ofAC3 { bsid := 0, hasBSID := false }) = true := by decide +kernel
+/-- 5: teletext page 200 comes back as 40 -/
+example : roundTripsTo (ofTeletext { items := [{ language := [1, 2, 3], page := 200, type := 1, magazine := 1 }] })
+    (ofTeletext { items := [{ language := [1, 2, 3], page := 40, type := 1, magazine := 1 }] }) = true := by decide +kernel
+/-- 6: line descriptors of a VBI data service with the unknown id 3 are dropped -/
+example : roundTripsTo (ofVBIData { services := [{ dataServiceID := 3, descriptors := [{ lineOffset := 3 }, { lineOffset := 4 }] }] })
+    (ofVBIData { services := [{ dataServiceID := 3, descriptors := [] }] }) = true := by decide +kernel
+/-- 7: a nil `Unknown` comes back as a pointer to an empty slice -/
+example : roundTripsTo (ofExtension { tag := 0x20 }) (ofExtension { tag := 0x20, unknown := some [] }) = true := by decide +kernel
+/-- 7: extension tag 6 without `SupplementaryAudio`: Go panics after `7f 01 06`; these bytes do not parse -/
+example : writeDescriptorPanics (ofExtension { tag := 6 }) = true ∧ writeDescriptor (ofExtension { tag := 6 }) = [0x7f, 1, 6] ∧
+    (parseDescriptor.val (writeDescriptor (ofExtension { tag := 6 }))).isOk = false := by decide +kernel
+/-- 8: a one-byte language code comes back padded, a five-byte one cut -/
+example : roundTripsTo (ofISO639 { language := [0x65], type := 1 }) (ofISO639 { language := [0x65, 0, 0], type := 1 }) = true ∧
+    roundTripsTo (ofISO639 { language := [1, 2, 3, 4, 5], type := 1 }) (ofISO639 { language := [1, 2, 3], type := 1 }) = true := by
+  decide +kernel
+/-- 8: a supplementary-audio language code without `HasLanguageCode` is dropped -/
+example : roundTripsTo (ofExtension { tag := 6, supplementaryAudio := some { languageCode := [1, 2, 3], hasLanguageCode := false, privateData := [9] } })
+    (ofExtension { tag := 6, supplementaryAudio := some { languageCode := [], hasLanguageCode := false, privateData := [9] } }) = true := by
+  decide +kernel
+/-- 8: a component tag of 300 is truncated to 44; 5-bit compatible flags 40 to 8 -/
+example : roundTripsTo (ofStreamIdentifier { componentTag := 300 }) (ofStreamIdentifier { componentTag := 44 }) = true ∧
+    roundTripsTo (ofAVCVideo { compatibleFlags := 40 }) (ofAVCVideo { compatibleFlags := 8 }) = true := by decide +kernel
+/-- 8: an offset of 1 h 0 min 1 s loses the second; a negative offset is written as 00:00 -/
+example : roundTripsTo
+    (ofLocalTimeOffset { items := [{ countryCode := [1, 2, 3], localTimeOffset := 3601000000000, timeOfChange := 0, nextTimeOffset := -3600000000000 }] })
+    (ofLocalTimeOffset { items := [{ countryCode := [1, 2, 3], localTimeOffset := 3600000000000, timeOfChange := 0, nextTimeOffset := 0 }] }) = true := by
+  decide +kernel
+/-- the duration bound is exact: 159 h 59 min round-trips, 160 h comes back as 0 h -/
+example : roundTripsTo
+    (ofLocalTimeOffset { items := [{ countryCode := [1, 2, 3], localTimeOffset := 575940000000000, timeOfChange := 0, nextTimeOffset := 576000000000000 }] })
+    (ofLocalTimeOffset { items := [{ countryCode := [1, 2, 3], localTimeOffset := 575940000000000, timeOfChange := 0, nextTimeOffset := 0 }] }) = true := by
+  decide +kernel
+/-- the time bounds are exact: the first second of MJD 65536 (2038-04-23) wraps to MJD 0 (1858-11-17), and the last
+second of MJD 15078 (1900-02-28) comes back 3 days late (the Annex C formula is valid from 1900-03-01) -/
+example : roundTripsTo
+    (ofLocalTimeOffset { items := [{ countryCode := [1, 2, 3], timeOfChange := 2155593600 }] })
+    (ofLocalTimeOffset { items := [{ countryCode := [1, 2, 3], timeOfChange := -3506544000 }] }) = true ∧
+  roundTripsTo
+    (ofLocalTimeOffset { items := [{ countryCode := [1, 2, 3], timeOfChange := -2203891201 }] })
+    (ofLocalTimeOffset { items := [{ countryCode := [1, 2, 3], timeOfChange := -2203632001 }] }) = true := by
+  decide +kernel
+/-- 8: a 300-byte network name is announced as 44 bytes; the parser returns the first 44 and the iterator is left in
+the middle of the name (the next "descriptor" is read from the name's bytes) -/
+example : (writeDescriptor (ofNetworkName { name := List.replicate 300 65 })).length = 302 ∧
+    roundTripsTo (ofNetworkName { name := List.replicate 300 65 })
+      { tag := 0x40, length := 44, networkName := some { name := List.replicate 44 65 } } = true := by decide +kernel
+/-- the normal-form theorems applied -/
+example : DescRTTo (ofMaximumBitrate { bitrate := 1234 }) (ofMaximumBitrate { bitrate := 1200 }) :=
+  desc_rt_maximum_bitrate_norm { bitrate := 1234 }
+example : DescRTTo (ofExtension { tag := 0x20 }) (ofExtension { tag := 0x20, unknown := some [] }) :=
+  desc_rt_extension_norm_unknown { tag := 0x20 } (by decide) (by decide) (by decide)
+
+end NormalForms
 
 end Astits.C14
